@@ -30,6 +30,10 @@ import MW.Lemmas.LedBytesWorld
 import MW.Lemmas.LedBytesConnect
 import MW.Lemmas.LedBytesEx
 import MW.Lemmas.LedBytesFullFalse
+import MW.Lemmas.LedBytesTop
+import MW.Lemmas.LedBytesRel
+import MW.Lemmas.LedBytesPendKey
+import MW.Lemmas.LedBytesRun
 namespace MW.Props.C01
 open MW MW.Model.Ledger MW.Spec.Chain MW.Spec.Books MW.Lemmas.Ledger
 
@@ -703,13 +707,14 @@ theorem disconnect_block_on_bytes {E : MW.LedBytes.Env} {c : Ctx} (R : RbEnv E c
     reads of filterTx commute: `filter_tx_reads_on_bytes`).  `FilterOut`: facts about the bytes the step produces (room in
     the block record before every AddRelevantTx, balances written back fit) -/
 theorem filter_block_on_bytes {E : MW.LedBytes.Env} {c : Ctx} (P : PendEnv E c.own) (O : RelOracle E c) {bs : BStore}
-    (hC : CanonS E bs) {ready : List Bytes} {b : Block} {hashB : Bytes} (hh : hashB.length = 32) (hid : E.N.blk hashB = b.id)
+    (hC : CanonS E bs) {ready : List Bytes} {b : Block} (hdom : O.dom b) {hashB : Bytes} (hh : hashB.length = 32)
+    (hid : E.N.blk hashB = b.id)
     (hht : b.height + 1 < collisionHeight) {time8 time4 : Nat} (ht8 : time8 < 256 ^ 8) (ht4 : time4 < 256 ^ 4)
     (hout : FilterOut P O bs ready b hashB time8) :
     (filterBlockB P O bs ready b hashB time8 time4).map (fun x => (absStore E x.1, x.2))
       = filterBlock c (absStore E bs) (ready.map E.N.wal) b ∧
     ∀ x, filterBlockB P O bs ready b hashB time8 time4 = .ok x → CanonS E x.1 :=
-  filterBlock_on_bytes P O hC hh hid hht ht8 ht4 hout
+  filterBlock_on_bytes P O hC hdom hh hid hht ht8 ht4 hout
 
 /-- (Round 6) the store reads of filterTx and of the follower commute: ExistCreditFromTx (a key of `c` under the 32-byte
     hash prefix), the pending transaction under a hash, the ready wallets read off bucket `ws` -/
@@ -788,6 +793,126 @@ example : RollbackBals MW.LedBytes.Ex.R0 {} 1 ∧ BlockRoom (absStore MW.LedByte
   ⟨fun acc h => (MW.LedBytes.Ex.rollbackOut_empty acc h).1, MW.LedBytes.Ex.blockRoom_empty _ 5⟩
 example : (⟨List.replicate 32 1, 5, [List.replicate 32 2, List.replicate 32 3]⟩ : Model.TxmgrCodec.BlockRecB).WF :=
   ⟨by decide, by decide, by decide, by decide, by decide⟩
+
+-- ------------------------------------------------------------------ Round 7: chain-level hypotheses only
+section Round7
+open MW.Lemmas.Ledger.Trace
+
+/-- (Round 7) WHERE THE FOLLOWER CALLS ITS STORE-WRITING PRIMITIVES.  `processOK c Pd Pf s v b` (MW.Lemmas.LedgerTraceDefs)
+    follows the control structure of `processBlock` and says: every call of disconnectBlock the run makes is at a (store,
+    height) satisfying `Pd`, every call of filterBlock at a (store, ready wallets, block) satisfying `Pf`.  From ANY state of
+    C01's step invariant (the store holds the books of a chain `S` of block-file blocks, the follower's tip is the tip of `S`,
+    `N` is the node's chain, `b` any block of the block files — stale notifications and runs that end in an error included)
+    every disconnect is at the tip of the chain whose books the store then holds (`PdInv`) and every connect is at a store
+    holding the books of a chain `T`, with the block — if it passes filterBlock's node check — the next block of the node's
+    chain after `T` (`PfInv`); all these chains are prefixes of `S` or `N`, so they inherit the bounds -/
+theorem handler_calls_at_inv {e : Lemmas.Ledger.Env} {G : Block} (EH : EnvHyp e G) {N S : List Block} (hN : ChainOK e G N)
+    (hS : ChainOK e G S) {s : Store} {v : Vol} {b : Block} (hI : Inv (e.ctx N) s S) (hv : v.best = tipMeta S)
+    (hbk : AMap.get e.known b.id = some b)
+    (hAR : AllReady e.own (readyWallets s e.wallets)) (hne : (readyWallets s e.wallets).isEmpty = false)
+    (hBS : ChainBounds e.p e.own S) (hBN : ChainBounds e.p e.own N) :
+    processOK (e.ctx N) (PdInv (e.ctx N)) (PfInv (e.ctx N)) s v b :=
+  processOK_of_J EH hN hS hI hv hbk hAR hne hBS hBN
+
+/-- (Round 7) ONE WHOLE HANDLER STEP ON BYTES WITH THE CONCRETE PRIMITIVES (`rawPrims H` = `disconnectBlockB`, `filterBlockB`, the
+    sync bucket, bucket `ws`), conditional only on the calls the run makes: if the primitives simulate at `Pd` / `Pf` pairs
+    (`SimAt`) and the model's run only calls them there (`processOK`), the byte step abstracts to `processBlock`, same volatile
+    state and verdict, canonical result.  Replaces `process_block_on_bytes`, whose invariant had to be kept at arbitrary arguments -/
+theorem process_block_on_bytes_tr {E : MW.LedBytes.Env} {c : Ctx} (H : HEnv E c) {Pd : Store → Nat → Prop}
+    {Pf : Store → List Wid → Block → Prop} (S : SimAt H Pd Pf) (hchain : ∀ x ∈ c.node.chain, BlkFit H x) {bs : BStore}
+    (hC : CanonS E bs) {v : Vol} (hbest : v.best.height < collisionHeight) {b : Block} (hb : BlkFit H b)
+    (hok : processOK c Pd Pf (absStore E bs) v b) :
+    absStore E (processBlockB (rawPrims H) bs v b).1 = (processBlock c (absStore E bs) v b).1 ∧
+    (processBlockB (rawPrims H) bs v b).2 = (processBlock c (absStore E bs) v b).2 ∧
+    CanonS E (processBlockB (rawPrims H) bs v b).1 :=
+  processBlock_on_bytes_tr H S hchain hC hbest hb hok
+
+/-- (Round 7) `sizes_of_inv`, DISCONNECT SIDE: the working balances Rollback writes back fit their fields (`RollbackBals`, a run
+    hypothesis of Round 6) whenever the store holds the books of a chain within `ChainBounds` and the call is at its tip -/
+theorem sizes_of_inv_disconnect {E : MW.LedBytes.Env} {c : Ctx} (R : RbEnv E c) {bs : BStore} (hC : CanonS E bs)
+    {T : List Block} {b : Block} (hI : Inv c (absStore E bs) (T ++ [b])) (hne : T ≠ [])
+    (hV : ChainValid c.own (T ++ [b])) (hH : HeightsOK (T ++ [b])) (hk : AMap.get c.node.known b.id = some b)
+    (hAR : AllReady c.own (readyWallets (absStore E bs) c.wallets)) (hB : ChainBounds c.p c.own (T ++ [b])) :
+    RollbackBals R bs b.height := rollbackBals_of_inv R hC hI hne hV hH hk hAR hB
+
+/-- (Round 7) `sizes_of_inv`, CONNECT SIDE: `FilterOut` (room in the block record before every AddRelevantTx, balances written back
+    fit; a run hypothesis of Round 6) whenever the store holds the books of `T` and `b` is the next block of the node's chain -/
+theorem sizes_of_inv_connect {E : MW.LedBytes.Env} {c : Ctx} (H : HEnv E c) {bs : BStore} (hC : CanonS E bs)
+    {ready : List Bytes} {b : Block} (hb : BlkFit H b) {T rest : List Block} (hI : Inv c (absStore E bs) T)
+    (hready : ready.map E.N.wal = readyWallets (absStore E bs) c.wallets)
+    (hAR : AllReady c.own (ready.map E.N.wal)) (hne : ready.isEmpty = false)
+    (hnode : c.node.chain = T ++ b :: rest) (hht : b.height = T.length) (hV : ChainValid c.own c.node.chain)
+    (hB : ChainBounds c.p c.own (T ++ [b])) (hH : HeightsOK c.node.chain) :
+    FilterOut H.P H.O bs ready b (H.hashOf b) (H.time8 b) :=
+  filterOut_of_inv H hC hb hI hready hAR hne hnode hht hV hB hH
+
+/-- (Round 7) **`sizes_of_inv`**: at `PdInv` / `PfInv` states both primitives simulate the ledger model: every size condition of
+    Round 6 (`Good`) is derived from C01's `Inv` + the chain-level bounds -/
+theorem sizes_of_inv {E : MW.LedBytes.Env} {c : Ctx} (H : HEnv E c) (hH : HeightsOK c.node.chain) :
+    SimAt H (PdInv c) (PfInv c) := MW.LedBytes.sizes_of_inv H hH
+
+/-- (Round 7) **`ledger_correct` ON THE BYTE STORE, CONCRETE HANDLER, HYPOTHESES ON THE CHAINS ONLY.**  For every history satisfying
+    C01's `RunHyp` whose node chains satisfy `ChainBounds` — fewer than 2^62 blocks, what any prefix pays a wallet and has not
+    spent < 2^64 (total supply ≤ MaxAmount), fewer than 2^32 - 1 transactions per block — and whose block-file blocks fit their
+    fields (`hFit`): the run of `pbBOf Hs` (= `processBlockB` over `disconnectBlockB` / `filterBlockB` / sync bucket / bucket `ws`)
+    on the byte database abstracts to the run of the ledger model event by event, and once the queue is empty the bytes are
+    canonical and DECODE TO exactly the books of the node's best chain.  `AllW` / `Good` / `Prims.I` of Round 6 are gone -/
+theorem ledger_correct_on_bytes_bounded {E : MW.LedBytes.Env} (e : Lemmas.Ledger.Env) (G : Block)
+    (Hs : ∀ chain : List Block, HEnv E (e.ctx chain)) (w0 : WorldB) (evs : List Ev)
+    (H : RunHyp e G (absW E w0) evs) (hB : ∀ ch ∈ chainsOf e (absW E w0) evs, ChainBounds e.p e.own ch)
+    (hFit : ∀ chain, (∀ x ∈ chain, AMap.get e.known x.id = some x) → ∀ id x, AMap.get e.known id = some x →
+      BlkFit (Hs chain) x)
+    (h0 : InvB E (e.ctx w0.chain) w0.bs w0.chain) (hv0 : w0.v.best = tipMeta w0.chain) (hq0 : w0.queue = []) :
+    absW E (runWB (pbBOf Hs) w0 evs) = runW e (absW E w0) evs ∧
+    ((runWB (pbBOf Hs) w0 evs).queue = [] →
+      InvB E (e.ctx (runWB (pbBOf Hs) w0 evs).chain) (runWB (pbBOf Hs) w0 evs).bs (runWB (pbBOf Hs) w0 evs).chain ∧
+        (runWB (pbBOf Hs) w0 evs).v.best = tipMeta (runWB (pbBOf Hs) w0 evs).chain) :=
+  MW.LedBytes.ledger_correct_on_bytes_bounded e G Hs w0 evs H hB hFit h0 hv0 hq0
+
+/-- (Round 7) the height bound of `ChainBounds` cannot be relaxed to 2^63 (the range of Go's int64 heights): the "syncedto"
+    collision height lies below it -/
+theorem height_bound_2_63_insufficient : collisionHeight < 2 ^ 63 ∧ 2 ^ 62 < collisionHeight := by decide
+
+/-- (Round 7, iii) filterTx's RELEVANCE COMPUTATION ON BYTES: `filterTxsB` (prevOf on the 32-byte outpoint hash: the block's own
+    transactions, ExistCreditFromTx + FetchTxBySha, the pending bucket; the keystore lookup per parsed output; the binding
+    flags) over a byte-level description `RelEnv` of the node abstracts to `filterTxs`, and every record it produces is
+    well formed — `relOracleOf RE` is an INSTANCE of Round 6's `RelOracle` -/
+theorem filter_txs_on_bytes {E : MW.LedBytes.Env} {c : Ctx} (RE : RelEnv E c) {bs : BStore} (hC : CanonS E bs)
+    (ready : List Bytes) {b : Block} (hd : RE.dom b) :
+    (filterTxsB RE bs ready b (RE.txsB b) [] 0 []).map (fun r => r.map (FRecB.nm E))
+      = filterTxs c (absStore E bs) (ready.map E.N.wal) b.id b.txs [] 0 [] ∧
+    ∀ r, filterTxsB RE bs ready b (RE.txsB b) [] 0 [] = .ok r → ∀ f ∈ r, f.Good E :=
+  filterTxs_on_bytes RE hC ready hd
+example {E : MW.LedBytes.Env} {c : Ctx} (RE : RelEnv E c) : RelOracle E c := relOracleOf RE
+
+/-- (Round 7, iv) THE PENDING-KEY INVARIANT.  Go reads a pending spender back under the key it was stored with, the ledger model
+    under the id of the deserialized transaction.  `PendKeyedB`: every record of bucket `m` sits under the hash of the
+    transaction mass-core deserializes from it.  On a canonical store it IS the ledger model's `KeyId` (a clause of C09's
+    `PendWF`, kept along C09's histories: `keyId_of_rel`) -/
+theorem pend_keyed_on_bytes {E : MW.LedBytes.Env} {own : Own} (P : PendEnv E own) {bs : BStore} (hC : CanonS E bs) :
+    PendKeyedB P bs.m ↔ MW.Lemmas.LedgerPending.KeyId (absStore E bs) := MW.LedBytes.pend_keyed_on_bytes P hC
+example {E : MW.LedBytes.Env} {own : Own} (P : PendEnv E own) : PendKeyedB P [] := pendKeyedB_empty P
+
+/-! (Round 7, ii) THE HYPOTHESES ARE MET BY A CONCRETE INSTANCE, RUN THROUGH THE CONCRETE HANDLER (`MW.LedBytes.Run`): the C01 worked
+    history (G – B1 – B2, the node reorganises to the sibling C2 of B2) with 32-byte ids under the Latin-1 naming; every component
+    of the environment is concrete — block files and a toy serialization (`RbEnv`, `PendEnv`), the relevance computation on bytes
+    (`relOracleOf (xRE …)`), the initial database bytes — and the whole run is evaluated by the kernel. -/
+example : RunHyp MW.LedBytes.Run.xe MW.LedBytes.Run.xG (absW MW.LedBytes.Run.xE MW.LedBytes.Run.xW0) MW.LedBytes.Run.xEvs :=
+  MW.LedBytes.Run.xRunHyp
+example : ∀ ch ∈ chainsOf MW.LedBytes.Run.xe (absW MW.LedBytes.Run.xE MW.LedBytes.Run.xW0) MW.LedBytes.Run.xEvs,
+    ChainBounds MW.LedBytes.Run.xe.p MW.LedBytes.Run.xe.own ch := MW.LedBytes.Run.xBounds
+example : InvB MW.LedBytes.Run.xE (MW.LedBytes.Run.xe.ctx [MW.LedBytes.Run.xG]) MW.LedBytes.Run.xBs0 [MW.LedBytes.Run.xG] :=
+  MW.LedBytes.Run.xInvB0
+/-- `ledger_correct_on_bytes_bounded` INSTANTIATED ON A REAL RUN: the bytes the concrete handler leaves after the reorganisation
+    abstract to the ledger model's run and decode to the books of G – B1 – C2 -/
+example := MW.LedBytes.Run.xCorrect
+/-- … and what those bytes are: the balance bucket holds the 8 bytes of 100 under the wallet's 42-byte id (the coinbase of B1, unspent
+    again, + the coinbase of C2), the cursor is 2, T1 is back in the pending bucket -/
+example := MW.LedBytes.Run.xRun_bal_bytes
+example := MW.LedBytes.Run.xRun_cursor
+example := MW.LedBytes.Run.xRun_pending
+
+end Round7
 end LedBytes
 
 end MW.Props.C01
